@@ -18,7 +18,7 @@ from ..tlc import run_tlc, parse_obl
 from .. import impl
 
 PID = 'C04'
-SHEETS = ['SHEET1', 'DATA 2', 'S.3', "IT'S"]
+SHEETS = ['SHEET1', 'DATA 2', 'S.3', "IT'S", 'TRUE']
 BOOKS = ['BOOK.XLSX', 'OTHER.XLSX', '2020 DATA.XLSX']
 
 
@@ -80,7 +80,7 @@ def render(sp):
     sheet = SHEETS[sh]
     low = ss in ('lower', 'quotedlower')
     sname = (sheet.lower() if low else sheet).replace("'", "''")   # doubled inside quotes
-    if "'" in sheet and ss in ('plain', 'lower'):
+    if ("'" in sheet or sheet == 'TRUE') and ss in ('plain', 'lower'):
         return None             # such a title cannot be written without quotes
     if ss == 'none':
         return ref
@@ -146,6 +146,12 @@ def _shard(items):
         if not ids[1].startswith('EXC'):
             try:
                 back = Ranges().push(ids[1]).ranges[0]['name']
+                # ... and as formula text (what an export writes): the parser reads it as the
+                # same single reference
+                b2 = impl.F().Parser().ast('=' + ids[1])[1].compile()
+                names = sorted(b2.inputs)
+                if names != [ids[1]]:
+                    back = 'PARSED-AS:' + '|'.join(names)
             except BaseException as ex:  # noqa
                 if isinstance(ex, (KeyboardInterrupt, SystemExit)):
                     raise
@@ -182,9 +188,45 @@ def finding_cat(den, style, text, problem):
     return None
 
 
+def link_table_cases():
+    """[n] is resolved through the link table of the host: the same written reference under
+    another table is another workbook (Refs: Denote depends on the table, not on what was
+    resolved before)."""
+    out = []
+    base = ctx_of({'hr': 2, 'hc': 2})
+    tables = [{'1': ('', 'OTHER.XLSX')}, {'1': ('', '2020 DATA.XLSX')}, {'1': ('', 'OTHER.XLSX'), '2': ('', 'THIRD.XLSX')},
+              {'2': ('', 'OTHER.XLSX'), '1': ('', 'THIRD.XLSX')}, {'1': ('D/', 'OTHER.XLSX')}]
+    for written in ('[1]SHEET1!B2', "'[1]DATA 2'!$A$1:B3", '[2]SHEET1!C3', '[1]S.3!A:A'):
+        for tb in tables:
+            n = written[1]
+            if n not in tb:
+                continue
+            d_, f_ = tb[n]
+            explicit = written.replace("'[%s]" % n, "'%s[%s]" % (d_, f_)) if written.startswith("'") else \
+                "'%s[%s]%s" % (d_, f_, written[3:].replace('!', "'!", 1))
+            ids = []
+            for text in (written, explicit):
+                c = dict(base)
+                c['external_links'] = dict(tb)
+                ids.append(resolve(text, c))
+            out.append((written, tb, explicit, ids[0], ids[1]))
+    return out
+
+
 def main():
     rep = Report(PID)
     thorough = tier() == 'thorough'
+    for written, tb, explicit, got, want in link_table_cases():
+        rep.count()
+        rep.distinct(('lt', written, json.dumps(tb, sort_keys=True)))
+        # (the quoted numeric id is a recorded finding of its own: only unquoted ones here)
+        if written.startswith("'"):
+            continue
+        if got != want:
+            rep.violation({'kind': 'link-table', 'text': written, 'table': json.dumps(tb, sort_keys=True)},
+                          {'written': written, 'link_table': tb, 'explicit_spelling': explicit,
+                           'identifiers_of_written': got, 'identifiers_of_explicit': want,
+                           'how': 'the same host context with another external_links table, in one process'})
     r = run_tlc('Refs', 'Refs.cfg', timeout=1500, heap='8g')
     rep.add_tlc(r, 'Refs: all 16 384 columns (ColBijection, LastCol) and the spelling space '
                    '(RelAbs) over boundary columns / rows')
